@@ -51,16 +51,96 @@ STR_METHODS = {'find', 'startswith', 'endswith', 'replace', 'lower', 'upper', 's
 
 
 class Evaluator:
-    def __init__(self, fn, intrinsics=None, attr_ok=None, model_types=()):
+    def __init__(self, fn, intrinsics=None, attr_ok=None, model_types=(), module=None, cls=None, _depth=0):
         self.fn = fn
         self.intrinsics = intrinsics or {}
         self.model_types = tuple(model_types)
+        self.module = module  # core.Module: module-level constants and helper functions are resolved in it
+        self.cls = cls  # class name: self.<helper>() and property getters are resolved in it
+        self.depth = _depth
         self.trace = []
         self.steps = 0
+
+    # -- resolution of names outside the function ------------------------------------
+    def _module_binding(self, name):
+        m = self.module
+        if m is None:
+            return None
+        cache = m.__dict__.setdefault('_e5_bindings', {})
+        if name not in cache:
+            found = [st for st in m.tree.body if (isinstance(st, ast.Assign) and any(isinstance(t, ast.Name) and t.id == name for t in st.targets))
+                     or (isinstance(st, ast.FunctionDef) and st.name == name)]
+            cache[name] = found[0] if len(found) == 1 else None
+        return cache[name]
+
+    def _class_member(self, name):
+        m = self.module
+        if m is None or self.cls is None:
+            return None
+        priv = name if not (name.startswith('__') and not name.endswith('__')) else name
+        for q in (f'{self.cls}.{priv}',):
+            if m.has(q):
+                n = m.get(q)
+                if isinstance(n, ast.FunctionDef):
+                    return n
+        for st in m.get(self.cls).body:
+            if isinstance(st, ast.Assign) and any(isinstance(t, ast.Name) and t.id == name for t in st.targets):
+                return st
+        return None
+
+    def call_function(self, fndef, args, kwargs, bound_self=None):
+        """Evaluate a helper (module function, method of the class, nested def or lambda)
+        with the same intrinsics; a modelled exception propagates to the caller."""
+        if self.depth > 6:
+            raise AnalysisError('helper calls nest too deeply')
+        a = fndef.args
+        if a.vararg or a.kwarg or a.posonlyargs:
+            raise AnalysisError(f'helper {getattr(fndef, "name", "lambda")} has a variadic signature')
+        params = [x.arg for x in a.args]
+        static = any(text(d) == 'staticmethod' for d in getattr(fndef, 'decorator_list', []))
+        env = dict(getattr(fndef, '_closure', {}) or {})
+        vals = list(args)
+        if bound_self is not None and not static:
+            vals = [bound_self] + vals
+        if len(vals) > len(params):
+            raise _Raise('TypeError')
+        for nm, v in zip(params, vals):
+            env[nm] = v
+        defaults = dict(zip(params[len(params) - len(a.defaults):], a.defaults))
+        for nm in params[len(vals):]:
+            if nm in kwargs:
+                env[nm] = kwargs[nm]
+            elif nm in defaults:
+                env[nm] = self.expr(defaults[nm], {})
+            else:
+                raise _Raise('TypeError')
+        for ka, d in zip(a.kwonlyargs, a.kw_defaults):
+            env[ka.arg] = kwargs[ka.arg] if ka.arg in kwargs else self.expr(d, {})
+        sub = Evaluator(fndef, self.intrinsics, None, self.model_types, self.module, self.cls, self.depth + 1)
+        sub.steps = self.steps
+        try:
+            if isinstance(fndef, ast.Lambda):
+                return sub.expr(fndef.body, env)
+            sub.block(fndef.body, env)
+        except _Return as r:
+            return r.value
+        finally:
+            self.steps = sub.steps
+            self.trace.extend(sub.trace)
+        return None
 
     def run(_self, **args):
         self = _self
         env = dict(args)
+        a = self.fn.args
+        if not isinstance(self.fn, ast.Lambda) or True:
+            params = [x.arg for x in a.args]
+            for nm, d in zip(params[len(params) - len(a.defaults):], a.defaults):
+                if nm not in env:
+                    env[nm] = self.expr(d, {})
+            for ka, d in zip(a.kwonlyargs, a.kw_defaults):
+                if ka.arg not in env and d is not None:
+                    env[ka.arg] = self.expr(d, {})
         self.trace = []
         self.steps = 0
         try:
@@ -103,6 +183,10 @@ class Evaluator:
             raise _Return(self.expr(st.value, env) if st.value is not None else None)
         if isinstance(st, ast.Pass):
             return
+        if isinstance(st, ast.FunctionDef):
+            st._closure = env
+            env[st.name] = lambda *a, _f=st, **k: self.call_function(_f, a, k)
+            return
         if isinstance(st, ast.For):
             it = self.expr(st.iter, env)
             if isinstance(it, Opaque):
@@ -120,6 +204,48 @@ class Evaluator:
             if not broke:
                 self.block(st.orelse, env)
             return
+        if isinstance(st, ast.While):
+            broke = False
+            while self.truth(self.expr(st.test, env)):
+                self.steps += 1
+                if self.steps > 200000:
+                    raise AnalysisError('evaluation does not terminate')
+                try:
+                    self.block(st.body, env)
+                except _Break:
+                    broke = True
+                    break
+                except _Continue:
+                    continue
+            if not broke:
+                self.block(st.orelse, env)
+            return
+        if isinstance(st, ast.Raise):
+            if st.exc is None:
+                raise _Raise(env.get('$handling', 'Exception'))
+            exc = st.exc
+            if isinstance(exc, ast.Call):
+                for a in exc.args:
+                    self.expr(a, env)  # the message is evaluated (it may raise itself)
+                exc = exc.func
+            raise _Raise(text(exc).split('.')[-1])
+        if isinstance(st, ast.Delete):
+            for t in st.targets:
+                if not isinstance(t, ast.Subscript):
+                    raise AnalysisError(f'unsupported del target {text(t)}')
+                c = self.expr(t.value, env)
+                if isinstance(c, Opaque):
+                    raise AnalysisError(f'del on an unmodelled value in `{text(st)}`')
+                try:
+                    if isinstance(t.slice, ast.Slice):
+                        lo = self.expr(t.slice.lower, env) if t.slice.lower else None
+                        hi = self.expr(t.slice.upper, env) if t.slice.upper else None
+                        del c[lo:hi]
+                    else:
+                        del c[self.expr(t.slice, env)]
+                except (KeyError, IndexError, TypeError) as ex:
+                    raise _Raise(type(ex).__name__)
+            return
         if isinstance(st, ast.Break):
             raise _Break()
         if isinstance(st, ast.Continue):
@@ -130,7 +256,10 @@ class Evaluator:
                 self.block(st.body, env)
             except _Raise as e:
                 for h in st.handlers:
-                    if h.type is None or e.kind in text(h.type):
+                    if h.type is None or e.kind in text(h.type) or text(h.type) in ('Exception', 'BaseException'):
+                        if h.name:
+                            env[h.name] = Opaque('exception ' + e.kind)
+                        env['$handling'] = e.kind
                         self.block(h.body, env)
                         break
                 else:
@@ -152,6 +281,16 @@ class Evaluator:
                 self.assign(a, b, env)
         elif isinstance(t, ast.Attribute) and isinstance(t.value, ast.Name) and isinstance(env.get(t.value.id), Record):
             setattr(env[t.value.id], t.attr, v)
+        elif isinstance(t, ast.Attribute) and isinstance(self.expr(t.value, env), Record):
+            setattr(self.expr(t.value, env), t.attr, v)
+        elif isinstance(t, ast.Subscript) and not isinstance(t.slice, ast.Slice):
+            c = self.expr(t.value, env)
+            if isinstance(c, Opaque):
+                raise AnalysisError(f'store into an unmodelled value {text(t)}')
+            try:
+                c[self.expr(t.slice, env)] = v
+            except (KeyError, IndexError, TypeError) as ex:
+                raise _Raise(type(ex).__name__)
         else:
             raise AnalysisError(f'unsupported assignment target {text(t)}')
 
@@ -172,7 +311,12 @@ class Evaluator:
         if isinstance(op, ast.Add):
             return a + b
         if isinstance(op, ast.Mod):
-            return Opaque('format')
+            if isinstance(a, str) and not any(isinstance(x, Opaque) for x in (b if isinstance(b, tuple) else (b,))):
+                try:
+                    return a % b
+                except (TypeError, ValueError):
+                    raise _Raise('TypeError')
+            return Opaque('format') if isinstance(a, str) else a % b
         raise AnalysisError(f'unsupported operator {type(op).__name__}')
 
     def expr(self, e, env):
@@ -187,6 +331,17 @@ class Evaluator:
                 return {'None': None, 'True': True, 'False': False}[e.id]
             if e.id in ('ord', 'chr', 'str', 'int', 'len'):
                 return {'ord': ord, 'chr': chr, 'str': str, 'int': int, 'len': len}[e.id]
+            import builtins
+
+            if isinstance(getattr(builtins, e.id, None), type) and issubclass(getattr(builtins, e.id), BaseException):
+                return e.id  # exception classes are modelled by their names
+            b = self._module_binding(e.id)
+            if isinstance(b, ast.Assign):
+                return self.expr(b.value, {})
+            if isinstance(b, ast.FunctionDef):
+                return lambda *a, **k: self.call_function(b, a, k)
+            if e.id in ('frozenset', 'tuple', 'list', 'dict', 'set', 'bool', 'bytes'):
+                return {'frozenset': frozenset, 'tuple': tuple, 'list': list, 'dict': dict, 'set': set, 'bool': bool, 'bytes': bytes}[e.id]
             raise AnalysisError(f'unknown name {e.id} in decision procedure')
         if isinstance(e, ast.Tuple):
             return tuple(self.expr(x, env) for x in e.elts)
@@ -194,6 +349,9 @@ class Evaluator:
             return [self.expr(x, env) for x in e.elts]
         if isinstance(e, ast.Dict):
             return {self.expr(k, env): self.expr(v, env) for k, v in zip(e.keys, e.values)}
+        if isinstance(e, ast.Lambda):
+            e._closure = env
+            return lambda *a, **k: self.call_function(e, a, k)
         if isinstance(e, ast.IfExp):
             return self.expr(e.body if self.truth(self.expr(e.test, env)) else e.orelse, env)
         if isinstance(e, (ast.GeneratorExp, ast.ListComp, ast.SetComp)):
@@ -304,9 +462,39 @@ class Evaluator:
             except (IndexError, KeyError) as ex:
                 raise _Raise(type(ex).__name__)
         if isinstance(e, ast.Attribute):
+            if isinstance(e.value, ast.Name) and self.cls and e.value.id == self.cls and e.value.id not in env:
+                mem = self._class_member(e.attr)
+                if isinstance(mem, ast.Assign):
+                    return self.expr(mem.value, {})
+                if isinstance(mem, ast.FunctionDef):
+                    return lambda *a, **k: self.call_function(mem, a, k)
+                raise AnalysisError(f'class attribute {text(e)} not found')
             v = self.expr(e.value, env)
             if isinstance(v, Record):
-                return getattr(v, e.attr)
+                if not hasattr(v, e.attr) and not isinstance(e.value, ast.Name) or (isinstance(e.value, ast.Name) and e.value.id == 'self' and e.attr not in v.__dict__):
+                    mem = self._class_member(e.attr)
+                    if isinstance(mem, ast.FunctionDef) and any(text(d) == 'property' for d in mem.decorator_list):
+                        return self.call_function(mem, [], {}, bound_self=v)
+                    if isinstance(mem, ast.FunctionDef):
+                        return lambda *a, **k: self.call_function(mem, a, k, bound_self=v)
+                    if isinstance(mem, ast.Assign) and isinstance(mem.value, ast.Call) and text(mem.value.func) == 'property' and mem.value.args:
+                        g = mem.value.args[0]
+                        if isinstance(g, ast.Lambda):
+                            return self.call_function(g, [v], {})
+                        if isinstance(g, ast.Name) and isinstance(self._class_member(g.id), ast.FunctionDef):
+                            return self.call_function(self._class_member(g.id), [], {}, bound_self=v)
+                    if isinstance(mem, ast.Assign):
+                        return self.expr(mem.value, {})
+                try:
+                    return getattr(v, e.attr)
+                except AttributeError:
+                    raise AnalysisError(f'attribute {text(e)} is not part of the model')
+            if isinstance(e.value, ast.Name) and self.cls and e.value.id == self.cls:
+                mem = self._class_member(e.attr)
+                if isinstance(mem, ast.Assign):
+                    return self.expr(mem.value, {})
+                if isinstance(mem, ast.FunctionDef):
+                    return lambda *a, **k: self.call_function(mem, a, k)
             raise AnalysisError(f'unsupported attribute access {text(e)}')
         if isinstance(e, ast.Call):
             try:
@@ -348,6 +536,12 @@ class Evaluator:
                     return [args[0](x) for x in args[1]]
                 if f.id in self.intrinsics:
                     return self.intrinsics[f.id](*args, **kwargs)
+                b = self._module_binding(f.id)
+                if isinstance(b, ast.FunctionDef):
+                    return self.call_function(b, args, kwargs)
+                if f.id in ('frozenset', 'bytes', 'sum', 'repr', 'iter', 'next', 'filter', 'hasattr', 'callable'):
+                    r = {'frozenset': frozenset, 'bytes': bytes, 'sum': sum, 'repr': repr, 'iter': iter, 'next': next, 'filter': filter, 'hasattr': hasattr, 'callable': callable}[f.id](*args, **kwargs)
+                    return list(r) if f.id == 'filter' else r
                 raise AnalysisError(f'call of unmodelled function {f.id}')
             if isinstance(f, ast.Attribute):
                 d = text(f)
@@ -358,6 +552,12 @@ class Evaluator:
                     r = getattr(recv, f.attr)(*args)
                     return list(r) if f.attr in ('items', 'keys', 'values') else r
                 if isinstance(recv, Record) and callable(getattr(recv, f.attr, None)):
+                    return getattr(recv, f.attr)(*args, **kwargs)
+                if isinstance(recv, Record) and isinstance(self._class_member(f.attr), ast.FunctionDef):
+                    return self.call_function(self._class_member(f.attr), args, kwargs, bound_self=recv)
+                if isinstance(f.value, ast.Name) and self.cls and f.value.id == self.cls and isinstance(self._class_member(f.attr), ast.FunctionDef):
+                    return self.call_function(self._class_member(f.attr), args, kwargs)
+                if isinstance(recv, list) and f.attr in ('append', 'extend', 'sort', 'insert', 'pop', 'remove', 'reverse', 'clear', 'copy') or isinstance(recv, dict) and f.attr in ('update', 'copy', 'pop', 'setdefault', 'clear') or isinstance(recv, (set, frozenset)) and f.attr in ('add', 'discard', 'union', 'copy', 'intersection', 'difference', 'issubset', 'isdisjoint'):
                     return getattr(recv, f.attr)(*args, **kwargs)
                 if self.model_types and isinstance(recv, self.model_types) and callable(getattr(recv, f.attr, None)):
                     return getattr(recv, f.attr)(*args, **kwargs)
